@@ -23,7 +23,9 @@ type srcRenderer struct {
 	// how the API is referred to in coMode: "" for a dot import, "co." etc.
 	api string
 	// names of the key / value variables of the enclosing range loops (innermost last)
-	kv [][2]string
+	kv  [][2]string
+	fn  string // name of the function being rendered (package-level helper names derive from it)
+	box bool   // element type *rt.Box instead of int
 }
 
 func (sr *srcRenderer) kvName(n string) string {
@@ -145,6 +147,10 @@ func (sr *srcRenderer) vexpr(v any) string {
 		return fmt.Sprintf("%s + %d", str(m["n"]), num(m["d"]))
 	case "obs":
 		return fmt.Sprintf("r.V(%d, %s)", num(m["id"]), str(m["n"]))
+	case "pv":
+		return "pwrap(" + str(m["n"]) + ")"
+	case "fresh":
+		return "&rt.Box{V: " + sr.vexpr(m["e"]) + "}"
 	case "gets":
 		return "get()"
 	case "pk":
@@ -170,6 +176,9 @@ func (sr *srcRenderer) vexpr(v any) string {
 func (sr *srcRenderer) yield(v string) string {
 	if sr.md == coMode {
 		return sr.api + "Yield(" + v + ")"
+	}
+	if sr.box {
+		return "rt.YT(yield, " + v + ")"
 	}
 	return "rt.Y(yield, " + v + ")"
 }
@@ -210,6 +219,8 @@ func (sr *srcRenderer) simple(s any) string {
 		return fmt.Sprintf("r.E(%d, w[0], w[1], w[2], w[3], w[4])", num(m["id"]))
 	case "mut":
 		return sr.mutStmt(m)
+	case "setp":
+		return "pscale_" + sr.fn + " = func(x int) int { return x * 100 }"
 	case "setcv":
 		return "cv = func() bool { return false }"
 	case "sets":
@@ -256,7 +267,7 @@ func (sr *srcRenderer) stmt(s any, ind string) string {
 		return ind + sr.simple(s) + "\n" + ind + "_ = " + n + "\n"
 	case "def2":
 		return ind + sr.simple(s) + "\n" + ind + "_, _ = a, b\n"
-	case "eff", "inc", "callf", "passign", "panic", "yield", "yfrom", "setcv", "sets", "effkv", "effkk", "effw", "mut", "effx":
+	case "eff", "inc", "callf", "passign", "panic", "yield", "yfrom", "setcv", "sets", "setp", "effkv", "effkk", "effw", "mut", "effx":
 		return indent(sr.simple(s), ind)
 	case "range":
 		return sr.rangeStmt(m, ind)
@@ -368,6 +379,8 @@ func (sr *srcRenderer) unsup(m J, ind string) string {
 		t = fmt.Sprintf("if r.T(%d) {\n\tgoto L\n}\n%s\nL:\n\tr.E(%d, a, b)\n", id, Y("a"), id+1)
 	case "select":
 		t = fmt.Sprintf("select {\ncase v := <-rt.Ch(7):\n\t%s\n}\n", Y("v"))
+	case "selbrk":
+		t = fmt.Sprintf("select {\ncase v := <-rt.Ch(7):\n\tif r.T(%d) {\n\t\tbreak\n\t}\n\tr.E(%d, v, 0)\n}\n", id, id+1)
 	case "defer":
 		t = fmt.Sprintf("defer r.E(%d, a, b)\n", id)
 	case "fallyield":
@@ -392,6 +405,8 @@ func (sr *srcRenderer) unsup(m J, ind string) string {
 		t = fmt.Sprintf("func() {\n\tfor v := range rt.Seq3 {\n\t\tr.E(%d, v, 0)\n\t}\n}()\n", id)
 	case "clo-rparr":
 		t = fmt.Sprintf("func() {\n\tfor k, v := range &uarr {\n\t\tr.E(%d, k, v)\n\t}\n}()\n", id)
+	case "clo-loopvar":
+		t = fmt.Sprintf("func() {\n\tvar fs []func() int\n\tfor i := 0; i < 3; i++ {\n\t\tfs = append(fs, func() int { return i })\n\t}\n\tfor _, f := range fs {\n\t\tr.E(%d, f(), 0)\n\t}\n}()\n", id)
 	case "clo-fall":
 		t = fmt.Sprintf("func() {\n\tswitch r.T(%d) {\n\tcase true:\n\t\tr.E(%d, a, b)\n\t\tfallthrough\n\tdefault:\n\t\tr.E(%d, a, b)\n\t}\n}()\n", id, id+1, id+2)
 	default:
@@ -499,7 +514,7 @@ func usesKind(ss []any, k string) bool {
 }
 
 // optProlog declares the closures of eta shape that the program uses (spec/MC_Src.tla AOpt / ABy).
-func optProlog(prog []any) string {
+func optProlog(prog []any, fn string) string {
 	js := canon(prog)
 	has := func(k string) bool { return strings.Contains(js, `"k":"`+k+`"`) }
 	var b strings.Builder
@@ -511,6 +526,10 @@ func optProlog(prog []any) string {
 	}
 	if has("pk") {
 		b.WriteString("\tinc1 := func(x int) int { return pkgInc(x) }\n")
+	}
+	if has("pv") || has("setp") {
+		// a PACKAGE-LEVEL function variable (reset at the start of every run) behind an eta-shaped closure
+		b.WriteString("\tpscale_" + fn + " = pscaleInit\n\tpwrap := func(x int) int { return pscale_" + fn + "(x) }\n\t_ = pwrap\n")
 	}
 	if has("idg") {
 		b.WriteString("\tidg := func(x int) int { return ident[int](x) }\n")
@@ -530,13 +549,24 @@ type box struct{ v int }
 
 func (b *box) Get() int { return b.v }
 func pkgInc(x int) int  { return x + 1 }
+func pscaleInit(x int) int { return x + 1000 }
 func ident[T any](x T) T { return x }
 `
 
+// pkgVars declares the package-level function variable of a program that uses one.
+func pkgVars(prog []any, fn string) string {
+	js := canon(prog)
+	if strings.Contains(js, `"k":"pv"`) || strings.Contains(js, `"k":"setp"`) {
+		return "\nvar pscale_" + fn + " = pscaleInit\n"
+	}
+	return ""
+}
+
 // byFunc renders a bystander: a plain function (no yield) of a processed file.
 func (sr *srcRenderer) byFunc(name string, prog []any) string {
+	sr.fn = name
 	body := sr.block(prog, "\t")
-	return fmt.Sprintf("func %s(r *rt.Rec, a, b int) int {\n%s%s\treturn a\n}\n", name, optProlog(prog), body)
+	return fmt.Sprintf("func %s(r *rt.Rec, a, b int) int {\n%s%s\treturn a\n}\n%s", name, optProlog(prog, name), body, pkgVars(prog, name))
 }
 
 // genFunc renders one generator function named name.
@@ -544,6 +574,12 @@ func (sr *srcRenderer) byFunc(name string, prog []any) string {
 //	trailing: "needed" appends `return nil` only when Go's terminating-statement rule
 //	requires it, "always" appends it unconditionally.
 func (sr *srcRenderer) genFunc(name string, prog []any, trailing string) string {
+	sr.fn = name
+	sr.box = strings.Contains(canon(prog), `"k":"fresh"`)
+	elem, natIter, pull := "int", "*rt.NIter", "rt.Pull(func(yield func(int) bool) {"
+	if sr.box {
+		elem, natIter, pull = "*rt.Box", "*rt.NIterT[*rt.Box]", "rt.PullT(func(yield func(*rt.Box) bool) {"
+	}
 	prolog := ""
 	if usesKind(prog, "callf") {
 		prolog += "\tf := func() { a += 100 }\n\t_ = f\n"
@@ -551,7 +587,8 @@ func (sr *srcRenderer) genFunc(name string, prog []any, trailing string) string 
 	if usesKind(prog, "range") || usesKind(prog, "effkk") {
 		prolog += rangeProlog
 	}
-	prolog += optProlog(prog)
+	prolog += optProlog(prog, name)
+	tailDecl := pkgVars(prog, name)
 	uk := unsupKind(prog)
 	if uk == "rparr" || uk == "clo-rparr" {
 		prolog += "\tuarr := [3]int{10, 20, 30}\n"
@@ -565,14 +602,14 @@ func (sr *srcRenderer) genFunc(name string, prog []any, trailing string) string 
 			return fmt.Sprintf("func %s(r *rt.Rec, a, b int) %sIter[int] { return %sg[[]int](r, a, b, []int{10, 20, 30}) }\n\nfunc %sg[S ~[]int](r *rt.Rec, a, b int, ts S) %sIter[int] {\n%s%s}\n",
 				name, sr.api, name, name, sr.api, prolog, body)
 		}
-		return fmt.Sprintf("func %s(r *rt.Rec, a, b int) %sIter[int] {\n%s%s}\n", name, sr.api, prolog, body)
+		return fmt.Sprintf("func %s(r *rt.Rec, a, b int) %sIter[%s] {\n%s%s}\n%s", name, sr.api, elem, prolog, body, tailDecl)
 	}
 	body := sr.block(prog, "\t\t")
 	if uk == "rtparam" {
 		return fmt.Sprintf("func %s(r *rt.Rec, a, b int) *rt.NIter { return %sg[[]int](r, a, b, []int{10, 20, 30}) }\n\nfunc %sg[S ~[]int](r *rt.Rec, a, b int, ts S) *rt.NIter {\n\treturn rt.Pull(func(yield func(int) bool) {\n%s%s\t})\n}\n",
 			name, name, name, indent(prolog, "\t"), body)
 	}
-	return fmt.Sprintf("func %s(r *rt.Rec, a, b int) *rt.NIter {\n\treturn rt.Pull(func(yield func(int) bool) {\n%s%s\t})\n}\n", name, indent(prolog, "\t"), body)
+	return fmt.Sprintf("func %s(r *rt.Rec, a, b int) %s {\n\treturn %s\n%s%s\t})\n}\n%s", name, natIter, pull, indent(prolog, "\t"), body, tailDecl)
 }
 
 // delegates of the delegation family (spec/MC_Src.tla D2, D3, D4)
